@@ -1,5 +1,6 @@
 import IPT.Model.Cli
 import IPT.Model.CliDecode
+import IPT.Model.Rng
 import IPT.Lemmas.Json
 /-
   C19 — the CLI reports what the library computes; saved parameters reproduce it.
@@ -241,6 +242,27 @@ example :
   rcases he with rfl | rfl <;>
     exact ⟨⟨by decide, by decide⟩, by simp [IPT.JsonLemmas.DayWf, IPT.JsonLemmas.PTwf, d]⟩
 example : decodeRange (renderRange []) = some [] := by decide
+
+/-- **what the tool computes is the library's range result**: when it succeeds, the list is
+    `rngModel` (the model of `prayer_times_dt_rng`, Model/Rng.lean - the object unit `rng` compares
+    with the real function and Thm C14 `rng_is_per_day`, Thm C15 `parallel_eq_sequential` are
+    about) with every entry an `Ok` -/
+theorem cliCompute_eq_rng (c : ParamsConfig α) (l : List (Int × DayTimes)) (h : cliCompute c = .ok l) :
+    l.map (fun x => (x.1, (Except.ok x.2 : Except Panic DayTimes))) =
+      rngModel c.params c.location c.startRd c.endRd := by
+  unfold cliCompute at h
+  unfold rngModel
+  generalize rangeDates c.startRd c.endRd = ds at h
+  induction ds generalizing l with
+  | nil => simp at h; subst h; simp
+  | cons rd rest ih =>
+    simp only [List.foldr_cons] at h
+    split at h
+    · rename_i d rest' hd hr
+      simp only [Except.ok.injEq] at h; subst h
+      simp only [List.map_cons, hd, ih rest' hr]
+    · simp at h
+    · simp at h
 
 -- non-vacuity: a range of three days
 example : rangeDates 738521 738523 = [738521, 738522, 738523] := by decide
